@@ -56,7 +56,7 @@ def _leave_loop(it, s):
 
 def run_stream(cfg, passes=1, observe=None, rng=None, record=False,
                extra_next=3, finalize_mode="eager", overshoot_steps=0,
-               protocol="next"):
+               protocol="next", late=0):
     """Drive one schedule to completion of `passes` adjoint calculations.
 
     observe: None | "flags" (is_exhausted/is_running before and after every
@@ -145,6 +145,7 @@ def run_stream(cfg, passes=1, observe=None, rng=None, record=False,
     idx = 0
     final_emitted = False
     it = None
+    late_left = late if ex.online else 0
     while not done:
         if idx >= cap:
             ex.ck("C02", "bounded_progress", False,
@@ -172,6 +173,11 @@ def run_stream(cfg, passes=1, observe=None, rng=None, record=False,
                   f"next() raised {type(e).__name__}: {e} after {idx} "
                   "actions on a valid configuration", None,
                   exc=type(e).__name__, index=idx, passes=ex.passes)
+            ex.ck("C02", "stream_complete", False,
+                  f"next() raised {type(e).__name__}: {e} after {idx} "
+                  f"actions: phase={ex.phase}, r={ex.r}, "
+                  f"passes={ex.passes}/{want}", None,
+                  exc=type(e).__name__)
             res.error = e
             res.error_index = idx
             break
@@ -179,6 +185,10 @@ def run_stream(cfg, passes=1, observe=None, rng=None, record=False,
         if record:
             actions.append(act_tuple(a))
         need_fin = ex.step(a)
+        if need_fin and late_left > 0:
+            # late finalisation: ask for further actions first
+            late_left -= 1
+            need_fin = False
         if need_fin:
             if finalize_mode == "eager":
                 try:
